@@ -624,6 +624,53 @@ func runUpgradeFailures(r *rep.Report) {
 	})
 }
 
+// runOriginBytes: every control byte, one at a time, inside the Origin header of an otherwise
+// admissible handshake (delivered in-process: net/http's own parser would refuse most of them).
+// SP and HT may appear in a header value; every other control byte makes the header malformed:
+// 400, code 3, one connection_error, no session.
+func runOriginBytes(r *rep.Report) {
+	eng := engine.NewServer(&config.ServerOptions{})
+	defer eng.Close()
+	errs := 0
+	eng.On("connection_error", func(...any) { errs++ })
+	for b := 0; b < 256; b++ {
+		if b >= 0x20 && b != 0x7f && b < 0x80 && b != ' ' {
+			continue // printable ASCII: one representative below
+		}
+		for _, pos := range []string{"middle", "end", "start"} {
+			origin := "http://a" + string([]byte{byte(b)}) + "b.example"
+			switch pos {
+			case "end":
+				origin = "http://a.example" + string([]byte{byte(b)})
+			case "start":
+				origin = string([]byte{byte(b)}) + "http://a.example"
+			}
+			req := httptest.NewRequest("GET", "http://h/engine.io/?EIO=4&transport=polling", nil)
+			req.Header["Origin"] = []string{origin}
+			rec := httptest.NewRecorder()
+			before, e0 := eng.ClientsCount(), errs
+			eng.ServeHTTP(rec, req)
+			r.Case(fmt.Sprintf("origin-byte/%#02x/%s", b, pos), true)
+			r.Obs("origin_control_byte_cases", 1)
+			malformed := (b < 0x20 && b != '\t') || b == 0x7f
+			if malformed {
+				var body struct {
+					Code    *int   `json:"code"`
+					Message string `json:"message"`
+				}
+				jerr := json.Unmarshal(rec.Body.Bytes(), &body)
+				if rec.Code != 400 || jerr != nil || body.Code == nil || *body.Code != 3 || body.Message != "Bad request" || errs-e0 != 1 || eng.ClientsCount() != before {
+					r.Violationf("c05-admission-decision", map[string]any{"origin_byte": b, "position": pos}, "handshake whose Origin header contains the control byte %#02x (%s): answered %d %q, %d connection_error events, client count %d -> %d; a malformed Origin is refused with 400 {\"code\":3,\"message\":\"Bad request\"}", b, pos, rec.Code, trunc(rec.Body.Bytes()), errs-e0, before, eng.ClientsCount())
+					return
+				}
+			} else if rec.Code != 200 {
+				r.Violationf("c05-admission-decision", map[string]any{"origin_byte": b, "position": pos}, "handshake whose Origin header contains the byte %#02x (allowed in a header value) was refused: %d %q", b, rec.Code, trunc(rec.Body.Bytes()))
+				return
+			}
+		}
+	}
+}
+
 func TestC05(t *testing.T) {
 	r := rep.New(t, "C05")
 	defer r.Flush()
@@ -634,6 +681,7 @@ func TestC05(t *testing.T) {
 		runRouting(r)
 		runAcceptedRefusals(r)
 		runUpgradeFailures(r)
+		runOriginBytes(r)
 	}
 	if r.Lane == 0 {
 		quicLanes(r, "admission")
